@@ -1,2 +1,586 @@
-// Package c05: implementation-side ops, generators and oracles for property C05.
+// Package c05: implementation-side ops, generators and oracles for property C05
+// (a statement rejected by acra-censor never reaches the database).
 package c05
+
+import (
+	"fmt"
+	"sort"
+	"strings"
+
+	"verifharness/internal/core"
+)
+
+func init() { core.RegisterProp("C05", run) }
+
+func hx(s string) string { return core.Hex([]byte(s)) }
+
+// ---- configuration tokens ----
+
+type hspec struct {
+	kind     string // A D AA DA I C
+	queries  []string
+	tables   []string
+	patterns []string
+}
+
+type cspec struct {
+	ipe, log bool
+	hs       []hspec
+}
+
+func (c cspec) tokens() string {
+	b := func(x bool) string {
+		if x {
+			return "1"
+		}
+		return "0"
+	}
+	out := []string{b(c.ipe), b(c.log), fmt.Sprint(len(c.hs))}
+	for _, h := range c.hs {
+		out = append(out, h.kind)
+		switch h.kind {
+		case "A", "D":
+			out = append(out, fmt.Sprint(len(h.queries)))
+			for _, q := range h.queries {
+				out = append(out, queryToken(q))
+			}
+			out = append(out, fmt.Sprint(len(h.tables)))
+			for _, t := range h.tables {
+				out = append(out, hx(t))
+			}
+			out = append(out, fmt.Sprint(len(h.patterns)))
+			for _, p := range h.patterns {
+				out = append(out, patternToken(p))
+			}
+		case "I":
+			out = append(out, fmt.Sprint(len(h.queries)))
+			for _, q := range h.queries {
+				out = append(out, queryToken(q))
+			}
+		}
+	}
+	return strings.Join(out, " ")
+}
+
+func (c cspec) hasKind(k string) bool {
+	for _, h := range c.hs {
+		if h.kind == k {
+			return true
+		}
+	}
+	return false
+}
+
+// randomSubset of the positions of s (at most `max` positions are candidates)
+func randomSigma(r *core.Rand, s *gstmt, max int) map[int]bool {
+	sigma := map[int]bool{}
+	cands := r.Intn(max + 1)
+	for i := 0; i < cands; i++ {
+		sigma[r.Intn(s.npos)] = true
+	}
+	// the whole-statement position only rarely (it hides everything else)
+	if !r.Chance(8) {
+		delete(sigma, s.npos-1)
+	}
+	return sigma
+}
+
+func sigmaKey(sigma map[int]bool) string {
+	var ks []int
+	for k := range sigma {
+		ks = append(ks, k)
+	}
+	sort.Ints(ks)
+	return fmt.Sprint(ks)
+}
+
+func randomRules(r *core.Rand, s *gstmt, others []*gstmt) hspec {
+	var h hspec
+	pickStmt := func() *gstmt {
+		if r.Chance(55) || len(others) == 0 {
+			return s
+		}
+		return core.Pick(r, others)
+	}
+	if r.Chance(45) {
+		for i := r.Intn(3); i >= 0; i-- {
+			h.queries = append(h.queries, renderStmt(pickStmt(), nil, randomStyle(r), r))
+		}
+	}
+	if r.Chance(45) {
+		for i := r.Intn(3); i >= 0; i-- {
+			if len(s.tables) > 0 && r.Chance(60) {
+				h.tables = append(h.tables, core.Pick(r, s.tables).name)
+			} else {
+				h.tables = append(h.tables, core.Pick(r, tablePool))
+			}
+		}
+	}
+	if r.Chance(45) {
+		for i := r.Intn(2); i >= 0; i-- {
+			ps := pickStmt()
+			h.patterns = append(h.patterns, renderStmt(ps, randomSigma(r, ps, 4), randomStyle(r), r))
+		}
+	}
+	return h
+}
+
+func randomConfig(r *core.Rand, s *gstmt, raws []string, others []*gstmt) cspec {
+	c := cspec{ipe: r.Chance(30), log: r.Chance(5)}
+	n := r.Intn(5)
+	if r.Chance(4) {
+		n = 0
+	}
+	for i := 0; i < n; i++ {
+		switch k := r.Intn(20); {
+		case k < 6:
+			h := randomRules(r, s, others)
+			h.kind = "A"
+			c.hs = append(c.hs, h)
+		case k < 13:
+			h := randomRules(r, s, others)
+			h.kind = "D"
+			c.hs = append(c.hs, h)
+		case k < 14:
+			c.hs = append(c.hs, hspec{kind: "AA"})
+		case k < 17:
+			c.hs = append(c.hs, hspec{kind: "DA"})
+		case k < 19:
+			h := hspec{kind: "I"}
+			for j := r.Intn(2); j >= 0; j-- {
+				switch r.Intn(3) {
+				case 0:
+					h.queries = append(h.queries, core.Pick(r, raws))
+				case 1:
+					h.queries = append(h.queries, malformedStmt(r))
+				default:
+					if len(others) > 0 {
+						h.queries = append(h.queries, renderStmt(core.Pick(r, others), nil, randomStyle(r), r))
+					}
+				}
+			}
+			c.hs = append(c.hs, h)
+		default:
+			c.hs = append(c.hs, hspec{kind: "C"})
+		}
+	}
+	return c
+}
+
+func run(r *core.Run) {
+	r.Rule = "statements from a grammar (SELECT/INSERT/UPDATE/DELETE/UNION with joins, sub-selects, derived tables, IN lists) rendered in several spellings; patterns derived from the statement by generalising subsets of its literals/columns/lists/sub-selects/WHERE/whole statement; censor configurations = random chains of allow/deny/allowall/denyall/query_ignore/query_capture with query, table and pattern rules built from the statement and from unrelated ones; malformed statements; sessions = interleavings of allowed and denied statements and database completions. Non-trivial: the statement parses (or the case is about parse errors) and the configuration has at least one handler; distinct by (configuration, statement text)."
+	runCorpus(r)
+	runPatterns(r)
+	runChains(r)
+	runTables(r)
+	runSessions(r)
+}
+
+// ---------- regression corpus: witnesses of the defects found (all repaired or registered) ----------
+
+var selfMatchWitnesses = []string{
+	"insert into t1 (a) values (1)",                                       // handleInsertStatement ended with `return false`
+	"insert into t1 (a, b) values (1, 'x') on duplicate key update a = 2", //
+	"insert into t1 (a) select b from t2 where c = 3",                     //
+	"select case when a = 1 then 'one' else 'other' end from t1",          // areEqualCaseExpr: query.Else vs pattern.Expr
+	"select a from t1 where created > now() - interval 1 day",             // areEqualIntervalExpr inverted
+	"select cast(a as char) from t1",                                      // areEqualConvertType: nil deref
+	"select cast(a as decimal(10, 2)) from t1",                            // areEqualConvertType inverted
+	"select a from t1 where b = 1",
+	"update t1 set a = 1 where b = 2",
+	"delete from t1 where a in (1, 2, 3)",
+	"select a from t1 union select b from t2",
+}
+
+func runCorpus(r *core.Run) {
+	// the model's placeholder constants are the real ones
+	r.Begin("placeholders", true, "corpus")
+	r.Do("C05.placeholders")
+
+	for _, w := range selfMatchWitnesses {
+		r.Begin("self:"+w, true, "corpus", "corpus:self-match")
+		out := r.Impl("C05.match " + patternToken(w) + " " + stmtToken(w))
+		r.Check(out == "true", "pattern-self-mismatch", "the statement's own text used as a pattern does not match it: "+w+" => "+out)
+	}
+	// isWherePattern(nil): pattern without WHERE against a statement with one
+	r.Begin("where-nil", true, "corpus")
+	out := r.Do("C05.match " + patternToken("select a from t1") + " " + stmtToken("select a from t1 where b = 1"))
+	r.Check(out == "false", "matcher-panic", "pattern `select a from t1` against `select a from t1 where b = 1` => "+out)
+
+	// a denied statement must not leave a pending entry (PostgreSQL simple query)
+	r.Begin("session-witness", true, "corpus")
+	cfg := cspec{hs: []hspec{{kind: "D", tables: []string{"secret"}}}}
+	line := "C05.pgsession " + cfg.tokens() + " 5 q:" + stmtToken("select * from pub") + " c q:" + stmtToken("select * from secret") + " q:" + stmtToken("select a from pub") + " c"
+	out = r.Do(line)
+	want := "ok F=[" + hx("select * from pub") + "] c@" + hx("select * from pub") + "=[] E=[] F=[" + hx("select a from pub") + "] c@" + hx("select a from pub") + "=[]"
+	r.Check(out == want, "session-misaligned", "deny `secret`, then an allowed statement: got "+out)
+
+	// query_ignore: every spelling of an ignored statement is ignored
+	r.Begin("ignore-spelling", true, "corpus")
+	icfg := cspec{hs: []hspec{{kind: "I", queries: []string{"select 1 from t1"}}, {kind: "DA"}}}
+	a := r.Do("C05.handle " + icfg.tokens() + " " + stmtToken("select 1 from t1"))
+	b := r.Do("C05.handle " + icfg.tokens() + " " + stmtToken("SELECT 1 FROM t1;"))
+	r.Check(a == "allow" && b == "allow", "spelling-variance", "query_ignore `select 1 from t1` + denyall: `select 1 from t1` => "+a+", `SELECT 1 FROM t1;` => "+b)
+
+	// table rules and nested tables (DESIGN §8 #18)
+	for _, w := range []string{
+		"select id from pub where id in (select id from secret)",
+		"select * from (select * from secret) as t",
+		"select a from pub union select a from secret",
+		"insert into pub (a) select a from secret",
+	} {
+		r.Begin("nested:"+w, true, "corpus", "corpus:nested-table")
+		cfg := cspec{hs: []hspec{{kind: "D", tables: []string{"secret"}}}}
+		out := r.Do("C05.handle " + cfg.tokens() + " " + stmtToken(w))
+		if out != "deny" {
+			r.Fail("table-rule-nested", "deny table `secret`, statement reads it below the top level: "+w+" => "+out)
+		}
+	}
+	// direct uses are matched
+	for _, w := range []string{"select * from secret", "select * from pub, secret", "select * from pub join secret on pub.id = secret.id", "insert into secret (a) values (1)"} {
+		r.Begin("direct:"+w, true, "corpus")
+		cfg := cspec{hs: []hspec{{kind: "D", tables: []string{"secret"}}}}
+		out := r.Do("C05.handle " + cfg.tokens() + " " + stmtToken(w))
+		r.Check(out == "deny", "table-rule-direct", "deny table `secret`: "+w+" => "+out)
+	}
+}
+
+// ---------- patterns ----------
+
+func runPatterns(r *core.Run) {
+	n := r.N(250, 2000)
+	unparsedPatterns := 0
+	for i := 0; i < n; i++ {
+		rnd := r.Rand.Fork()
+		s := genStatement(rnd)
+		raw := renderStmt(s, nil, plainStyle, rnd)
+		st := stmtToken(raw)
+		if strings.HasSuffix(st, "/!") {
+			r.Begin("gen-unparsed:"+raw, false, "generator-unparsed")
+			r.Note("generator produced a statement the parser rejects: %s", raw)
+			continue
+		}
+		// subsets of up to 6 positions: all of them (thorough) or a sample (quick)
+		cand := rnd.Intn(s.npos)
+		var positions []int
+		for j := 0; j < 6 && j < s.npos; j++ {
+			positions = append(positions, (cand+j*7)%s.npos)
+		}
+		subsets := 1 << len(positions)
+		step := 1
+		if !r.Thorough() && subsets > 8 {
+			step = subsets / 8
+		}
+		for m := 0; m < subsets; m += step {
+			sigma := map[int]bool{}
+			for b, p := range positions {
+				if m&(1<<b) != 0 {
+					sigma[p] = true
+				}
+			}
+			pat := renderStmt(s, sigma, randomStyle(rnd), rnd)
+			pt := patternToken(pat)
+			r.Begin("pat:"+pat+"|"+raw, true, "pattern", "stmt:"+s.kind, fmt.Sprintf("generalised:%d", len(sigma)))
+			if strings.HasSuffix(pt, "/!") {
+				unparsedPatterns++
+				r.Tag("pattern-unparsed")
+				continue
+			}
+			for p := range sigma {
+				r.Tag("placeholder:" + s.posPh[p])
+			}
+			out := r.Do("C05.match " + pt + " " + st)
+			r.Check(out == "true", "pattern-self-mismatch", "pattern derived from the statement does not match it: pattern `"+pat+"` statement `"+raw+"` => "+out)
+			// the same pattern against another spelling of the statement
+			raw2 := renderStmt(s, nil, randomStyle(rnd), rnd)
+			out2 := r.Do("C05.match " + pt + " " + stmtToken(raw2))
+			r.Check(out2 == out, "spelling-variance", "pattern `"+pat+"`: `"+raw+"` => "+out+" but `"+raw2+"` => "+out2)
+		}
+		// near miss: one literal of the statement changed. A pattern that generalises that literal (or something
+		// around it) still matches; one that spells it out usually does not (correspondence only for that direction).
+		if pos, restore := mutateLiteral(s, rnd); pos >= 0 {
+			mraw := renderStmt(s, nil, plainStyle, rnd)
+			mt := stmtToken(mraw)
+			restore()
+			if !strings.HasSuffix(mt, "/!") {
+				for k := 0; k < 3; k++ {
+					sigma := randomSigma(rnd, s, 3)
+					if k == 0 {
+						sigma[pos] = true
+					}
+					pat := renderStmt(s, sigma, plainStyle, rnd)
+					pt := patternToken(pat)
+					if strings.HasSuffix(pt, "/!") {
+						continue
+					}
+					r.Begin("near:"+pat+"|"+mraw, true, "pattern-near-miss")
+					res := r.Do("C05.match " + pt + " " + mt)
+					r.Tag("near:" + res)
+					if sigma[pos] {
+						r.Check(res == "true", "pattern-generalised-mismatch", "pattern `"+pat+"` generalises the literal in which `"+mraw+"` differs from its source, but => "+res)
+					}
+				}
+			}
+		}
+		// an unrelated statement against a pattern of this one (mostly false; correspondence only)
+		o := genStatement(rnd)
+		oraw := renderStmt(o, nil, plainStyle, rnd)
+		if ot := stmtToken(oraw); !strings.HasSuffix(ot, "/!") {
+			pat := renderStmt(s, randomSigma(rnd, s, 5), plainStyle, rnd)
+			if pt := patternToken(pat); !strings.HasSuffix(pt, "/!") {
+				r.Begin("xpat:"+pat+"|"+oraw, true, "pattern-cross")
+				res := r.Do("C05.match " + pt + " " + ot)
+				r.Tag("cross:" + res)
+			}
+		}
+	}
+	r.Extra["patterns_not_parseable"] = unparsedPatterns
+}
+
+// ---------- chains ----------
+
+func runChains(r *core.Run) {
+	n := r.N(220, 1800)
+	for i := 0; i < n; i++ {
+		rnd := r.Rand.Fork()
+		s := genStatement(rnd)
+		others := []*gstmt{genStatement(rnd), genStatement(rnd)}
+		nsp := 3
+		var raws []string
+		raws = append(raws, renderStmt(s, nil, plainStyle, rnd))
+		for j := 1; j < nsp; j++ {
+			raws = append(raws, renderStmt(s, nil, randomStyle(rnd), rnd))
+		}
+		st0 := stmtToken(raws[0])
+		if strings.HasSuffix(st0, "/!") {
+			r.Begin("gen-unparsed:"+raws[0], false, "generator-unparsed")
+			continue
+		}
+		// spellings are one statement for the parser
+		parts0 := strings.SplitN(st0, "/", 2)[1]
+		for _, raw := range raws[1:] {
+			r.Begin("spelling:"+raw, true, "spelling")
+			p := strings.SplitN(stmtToken(raw), "/", 2)[1]
+			r.Check(p == parts0, "spelling-variance", "two spellings parse differently: `"+raws[0]+"` vs `"+raw+"`")
+		}
+		for c := 0; c < 3; c++ {
+			cfg := randomConfig(rnd, s, raws, others)
+			ct := cfg.tokens()
+			var verdicts []string
+			for _, raw := range raws {
+				r.Begin("chain:"+ct+"|"+raw, len(cfg.hs) > 0, "chain", fmt.Sprintf("handlers:%d", len(cfg.hs)))
+				v := r.Do("C05.handle " + ct + " " + stmtToken(raw))
+				verdicts = append(verdicts, v)
+				r.Tag("verdict:" + v)
+			}
+			for j := 1; j < len(verdicts); j++ {
+				r.Check(verdicts[j] == verdicts[0], "spelling-variance", "verdict differs between spellings: `"+raws[0]+"` => "+verdicts[0]+", `"+raws[j]+"` => "+verdicts[j]+" under "+ct)
+			}
+			// malformed statement under the same configuration
+			bad := malformedStmt(rnd)
+			bt := stmtToken(bad)
+			r.Begin("chain-bad:"+ct+"|"+bad, len(cfg.hs) > 0, "chain-malformed")
+			v := r.Do("C05.handle " + ct + " " + bt)
+			if strings.HasSuffix(bt, "/!") && v != "cfgerr" && !cfg.ipe && (len(cfg.hs) > 0 || cfg.log) {
+				r.Check(v == "deny", "unparsed-allowed", "unparseable statement `"+bad+"` allowed without ignore_parse_error under "+ct)
+			}
+		}
+		// directed configurations whose verdict the property fixes
+		raw := raws[1]
+		st := stmtToken(raw)
+		other := renderStmt(s, nil, randomStyle(rnd), rnd)
+		direct := []struct {
+			name string
+			cfg  cspec
+			want string
+		}{
+			{"deny-query", cspec{hs: []hspec{{kind: "D", queries: []string{other}}}}, "deny"},
+			{"deny-query-behind-allow-of-other", cspec{hs: []hspec{{kind: "A", queries: []string{renderStmt(others[0], nil, plainStyle, rnd)}}, {kind: "D", queries: []string{other}}, {kind: "AA"}}}, ""},
+			{"allow-other-then-denyall", cspec{hs: []hspec{{kind: "A", tables: []string{"no_such_table"}}, {kind: "DA"}}}, "deny"},
+			{"allow-query-then-denyall", cspec{hs: []hspec{{kind: "A", queries: []string{other}}, {kind: "DA"}}}, "allow"},
+			{"deny-pattern-self", cspec{hs: []hspec{{kind: "D", patterns: []string{renderStmt(s, randomSigma(rnd, s, 3), randomStyle(rnd), rnd)}}}}, "deny*"},
+			{"denyall-first", cspec{hs: []hspec{{kind: "DA"}, {kind: "AA"}}}, "deny"},
+			{"capture-then-denyall", cspec{hs: []hspec{{kind: "C"}, {kind: "DA"}}}, "deny"},
+		}
+		for _, d := range direct {
+			ct := d.cfg.tokens()
+			r.Begin("direct:"+d.name+"|"+ct+"|"+raw, true, "chain-direct", "direct:"+d.name)
+			v := r.Do("C05.handle " + ct + " " + st)
+			switch d.want {
+			case "":
+			case "deny*": // unless the derived pattern is not parseable (then the configuration is rejected)
+				r.Check(v == "deny" || v == "cfgerr", "deny-rule-ineffective", d.name+": `"+raw+"` => "+v+" under "+ct)
+			default:
+				r.Check(v == d.want, "chain-"+d.name, d.name+": `"+raw+"` => "+v+" (want "+d.want+") under "+ct)
+			}
+		}
+	}
+}
+
+// ---------- table rules ----------
+
+func runTables(r *core.Run) {
+	n := r.N(200, 1600)
+	for i := 0; i < n; i++ {
+		rnd := r.Rand.Fork()
+		s := genStatement(rnd)
+		raw := renderStmt(s, nil, randomStyle(rnd), rnd)
+		st := stmtToken(raw)
+		if strings.HasSuffix(st, "/!") {
+			continue
+		}
+		// the matcher itself, random sets
+		var set []string
+		for j := rnd.Intn(4); j >= 0; j-- {
+			set = append(set, core.Pick(rnd, tablePool))
+		}
+		toks := []string{fmt.Sprint(len(set))}
+		for _, t := range set {
+			toks = append(toks, hx(t))
+		}
+		r.Begin("tables:"+strings.Join(set, ",")+"|"+raw, true, "tables")
+		r.Do("C05.tables " + strings.Join(toks, " ") + " " + st)
+		// deny rule for one table of the statement
+		if len(s.tables) == 0 {
+			continue
+		}
+		t := core.Pick(rnd, s.tables).name
+		how := s.touches(t)
+		cfg := cspec{hs: []hspec{{kind: "D", tables: []string{t}}}}
+		r.Begin("deny-table:"+t+"|"+raw, true, "deny-table", "table-use:"+how)
+		v := r.Do("C05.handle " + cfg.tokens() + " " + st)
+		switch how {
+		case "top":
+			r.Check(v == "deny", "table-rule-direct", "deny table `"+t+"`, statement uses it at the top level: `"+raw+"` => "+v)
+		case "nested":
+			if v != "deny" {
+				r.Fail("table-rule-nested", "deny table `"+t+"`, statement reads it below the top level: `"+raw+"` => "+v)
+			}
+		}
+	}
+}
+
+// ---------- sessions ----------
+
+func runSessions(r *core.Run) {
+	n := r.N(40, 400)
+	for i := 0; i < n; i++ {
+		rnd := r.Rand.Fork()
+		// a small universe of statements and one configuration
+		var stmts []*gstmt
+		for j := 0; j < 4; j++ {
+			stmts = append(stmts, genStatement(rnd))
+		}
+		raw0 := renderStmt(stmts[0], nil, plainStyle, rnd)
+		cfg := randomConfig(rnd, stmts[0], []string{raw0}, stmts[1:])
+		if len(cfg.hs) == 0 || rnd.Chance(40) {
+			t := "secret"
+			if len(stmts[0].tables) > 0 {
+				t = stmts[0].tables[0].name
+			}
+			cfg = cspec{hs: []hspec{{kind: "D", tables: []string{t}, queries: []string{renderStmt(stmts[1], nil, plainStyle, rnd)}}}}
+		}
+		ct := cfg.tokens()
+		if r.Impl("C05.handle "+ct+" "+stmtToken("select 1")) == "cfgerr" {
+			continue
+		}
+		var evs []string
+		var texts []string
+		outstanding := 0
+		m := 3 + rnd.Intn(8)
+		for j := 0; j < m; j++ {
+			if outstanding > 0 && rnd.Chance(35) {
+				evs = append(evs, "c")
+				texts = append(texts, "")
+				outstanding--
+				continue
+			}
+			var raw string
+			if rnd.Chance(15) {
+				raw = malformedStmt(rnd)
+			} else {
+				raw = renderStmt(core.Pick(rnd, stmts), nil, randomStyle(rnd), rnd)
+			}
+			tk := stmtToken(raw)
+			evs = append(evs, "q:"+tk)
+			texts = append(texts, raw)
+			if r.Impl("C05.handle "+ct+" "+tk) == "allow" {
+				outstanding++
+			}
+		}
+		line := "C05.pgsession " + ct + " " + fmt.Sprint(len(evs)) + " " + strings.Join(evs, " ")
+		r.Begin("session:"+line, true, "session", fmt.Sprintf("events:%d", len(evs)))
+		out := r.Do(line)
+		// direct oracle: replay the verdicts and the queue independently
+		f := strings.Fields(out)
+		if len(f) != len(evs)+1 || f[0] != "ok" {
+			r.Fail("session-broken", "session did not complete: "+out)
+			continue
+		}
+		var queue []string
+		for j, ev := range evs {
+			res := f[j+1]
+			if ev == "c" {
+				want := "c-=[]"
+				if len(queue) > 0 {
+					front := queue[0]
+					queue = queue[1:]
+					want = "c@" + hx(front) + "=" + hexList(queue)
+				}
+				r.Check(res == want, "session-misaligned", fmt.Sprintf("event %d (database completion): response processed with %s, want %s", j, res, want))
+				continue
+			}
+			v := r.Impl("C05.handle " + ct + " " + ev[2:])
+			if v == "allow" {
+				queue = append(queue, texts[j])
+				r.Check(res == "F="+hexList(queue), "session-misaligned", fmt.Sprintf("event %d: allowed statement `%s` => %s, want forwarded with queue %s", j, texts[j], res, hexList(queue)))
+			} else {
+				if r.Check(strings.HasPrefix(res, "E="), "denied-forwarded", fmt.Sprintf("event %d: denied statement `%s` => %s, want error + ready to the client and nothing forwarded", j, texts[j], res)) {
+					r.Check(res == "E="+hexList(queue), "session-misaligned", fmt.Sprintf("event %d: denied statement `%s` left the pending queue as %s, want %s", j, texts[j], res, hexList(queue)))
+				}
+			}
+		}
+		// the same statements through the real MySQL proxy (COM_QUERY / COM_STMT_PREPARE)
+		{
+			var mev []string
+			var want []string
+			for j, ev := range evs {
+				if ev == "c" {
+					continue
+				}
+				kind := "q:"
+				if (i+j)%3 == 0 {
+					kind = "s:"
+				}
+				mev = append(mev, kind+ev[2:])
+				if r.Impl("C05.handle "+ct+" "+ev[2:]) == "allow" {
+					want = append(want, "F")
+				} else {
+					want = append(want, "E")
+				}
+			}
+			ml := "C05.mysession " + ct + " " + fmt.Sprint(len(mev)) + " " + strings.Join(mev, " ")
+			r.Begin("mysession:"+ml, true, "session-mysql", fmt.Sprintf("events:%d", len(mev)))
+			mout := r.Do(ml)
+			r.Check(mout == strings.TrimSpace("ok "+strings.Join(want, " ")), "denied-forwarded", "MySQL session: got "+mout+", want ok "+strings.Join(want, " "))
+		}
+		// the same statements as Parse messages (extended protocol): a denied one is answered with an error and not forwarded
+		if i%4 == 0 {
+			for j, ev := range evs {
+				if ev == "c" {
+					continue
+				}
+				l := "C05.pgsession " + ct + " 1 p:" + ev[2:]
+				r.Begin("parse:"+l, true, "session-parse")
+				res := r.Impl(l)
+				v := r.Impl("C05.handle " + ct + " " + ev[2:])
+				if v == "allow" {
+					// X: the proxy could not register the prepared statement and closed the session (nothing forwarded)
+					r.Check(res == "ok F=[]" || res == "ok X=[]", "session-misaligned", "allowed Parse `"+texts[j]+"` => "+res)
+				} else {
+					r.Check(res == "ok E=[]", "denied-forwarded", "denied Parse `"+texts[j]+"` => "+res)
+				}
+			}
+		}
+	}
+}
